@@ -165,9 +165,11 @@ def cases(tier, seed):
                 for hist in two_step:
                     cs.append({"doc": d, "history": hist, "op": op, "inplace": ip})
                 if tier != "quick":
-                    for s1, s2 in itertools.product(state_ops[:5], state_ops[:6]):
+                    for s1, s2 in itertools.product(state_ops[:3], state_ops[:4]):
                         cs.append({"doc": d, "history": [[s1, True], [s2, True]], "op": op, "inplace": ip})
                     for s_op in MUTATORS:
+                        if s_op in ("simplify", "topicosvg") and op == "clip_to_viewbox":
+                            continue  # > 1500 paths each (whole pipeline twice, then clipping)
                         cs.append({"doc": d, "history": [[s_op, False]], "op": op, "inplace": ip})
     return cs
 
